@@ -267,6 +267,12 @@ pub fn extreme_case<T: Sc>(rng: &mut Rng, idx: usize) -> StateCase<T> {
         if h % 2 == 1 || (h == 0 && idx % 3 == 0) {
             let k = rng.below(p);
             a[k] = T::of(*rng.pick(&specials));
+        } else if h % 4 == 2 && p >= 2 {
+            // coinciding parameters: basis functions of the same kind become identical
+            let v = a[0];
+            for q in a.iter_mut() {
+                *q = v;
+            }
         }
         hist.push(a);
     }
